@@ -22,7 +22,7 @@ import (
 	"github.com/dolthub/dolt/go/zzverif/vsql"
 )
 
-const c47Rule = "one server, per case 1-2 database names (plain `dN`, needing quoting `dN-x`; each used in lower- and upper-case spellings), 5-10 drawn operations: CREATE DATABASE (then a generated repository: 1-2 tables, 1-3 commits, optional branch with its own commit, optional tag, optional stash, staged + unstaged row changes and an untracked table), DROP DATABASE, dolt_undrop(name in either spelling), dolt_undrop() listing, dolt_purge_dropped_databases(), server restart on the same data directory, further uncommitted changes. Model: live databases (case-insensitive names) and the holding area (exact names; a second drop of the same exact name turns the older one into `<name>.backup.<ms>`). Oracle: fingerprint before DROP == fingerprint after dolt_undrop (all refs, logs, schemas, rows, working sets, status, stashes); dolt_undrop fails when a database with the same case-insensitive name exists and then neither that database (fingerprint) nor the holding area changes; after purge undrop fails and live databases are untouched; a restart changes neither live databases nor the holding area; SHOW DATABASES and the dolt_undrop() listing equal the model after every operation. Non-trivial: the case contains a successful undrop of a database with uncommitted changes and an undrop refused because the name was taken; distinct by operation list."
+const c47Rule = "one server, per case 1-2 database names (plain `dN`, needing quoting `dN-x`; each used in lower- and upper-case spellings), 8-14 drawn operations (weights depend on the state: a name in the holding area is mostly undropped or re-created, a live one mostly dropped): CREATE DATABASE (then a generated repository: 1-2 tables, 1-3 commits, optional branch with its own commit, optional tag, optional stash, staged + unstaged row changes and an untracked table), DROP DATABASE, dolt_undrop(name in either spelling), dolt_undrop() listing, dolt_purge_dropped_databases(), server restart on the same data directory, further uncommitted changes. Model: live databases (case-insensitive names) and the holding area (exact names; a second drop of the same exact name turns the older one into `<name>.backup.<ms>`). Oracle: fingerprint before DROP == fingerprint after dolt_undrop (all refs, logs, schemas, rows, working sets, status, stashes); dolt_undrop fails when a database with the same case-insensitive name exists and then neither that database (fingerprint) nor the holding area changes; after purge undrop fails and live databases are untouched; a restart changes neither live databases nor the holding area; SHOW DATABASES and the dolt_undrop() listing equal the model after every operation. Non-trivial (DESIGN): for one name the case contains, in this order, DROP of a database with uncommitted changes, CREATE of the same name, a refused undrop, DROP of the new database and a successful undrop (60% of the cases are steered along this skeleton with other operations interleaved); distinct by operation list."
 
 var c47Assumptions = []string{
 	"when the holding area contains two databases whose names differ only by case, which of them dolt_undrop(name) restores is not asserted (database names are case-insensitive; today the first directory entry wins even if the other one matches the argument exactly — class undrop_other_spelling_restored); the restored one must still equal its own fingerprint",
@@ -76,7 +76,7 @@ func TestVerif_C47(t *testing.T) {
 	env := &c47Env{t: t, base: dir, srv: srv}
 	defer func() { env.srv.Stop() }()
 	env.connect(t)
-	vh.Check(t, "undrop", 60, 260, func(rt *rapid.T) {
+	vh.Check(t, "undrop", 90, 300, func(rt *rapid.T) {
 		c47Run(rt, env, rec)
 	})
 }
@@ -276,6 +276,10 @@ func c47Run(rt *rapid.T, env *c47Env, rec *vh.Recorder) {
 	}()
 	classes := map[string]bool{}
 	undropDirty, undropRefused := false, false
+	// DESIGN's non-trivial sequence per logical name: drop (with uncommitted changes) -> create the
+	// same name -> undrop refused -> drop the new one -> undrop. stage counts how far a name got.
+	stage := map[string]int{}
+	skeleton := rapid.IntRange(0, 9).Draw(rt, "follow_skeleton") < 6
 
 	create := func(label string, lower string) {
 		exact := spell(label, lower)
@@ -297,38 +301,79 @@ func c47Run(rt *rapid.T, env *c47Env, rec *vh.Recorder) {
 		if _, ok := c.dropped[exact]; ok {
 			classes["create_while_same_name_in_holding_area"] = true
 		}
+		if stage[lower] == 1 {
+			stage[lower] = 2
+		}
 	}
 
 	// every case starts with one database
 	create("init", logical[0])
 	c.check("initial create")
 
-	nops := rapid.IntRange(5, 10).Draw(rt, "nops")
+	nops := rapid.IntRange(8, 14).Draw(rt, "nops")
 	for i := 0; i < nops; i++ {
 		label := fmt.Sprintf("o%d", i)
+		// state-dependent menu of (operation, logical name) pairs
 		var menu []string
 		add := func(k string, w int) {
 			for j := 0; j < w; j++ {
 				menu = append(menu, k)
 			}
 		}
-		add("create", 2)
-		if len(c.live) > 0 {
-			add("drop", 4)
-			add("touch", 1)
-		} else {
-			add("drop", 1)
+		for li, lower := range logical {
+			inHolding := false
+			for n := range c.dropped {
+				if strings.EqualFold(n, lower) {
+					inHolding = true
+				}
+			}
+			tag := fmt.Sprintf(":%d", li)
+			if c.live[lower] != nil {
+				add("drop"+tag, 8)
+				add("touch"+tag, 2)
+				add("create"+tag, 1) // refused
+				if inHolding {
+					add("undrop"+tag, 8) // refused: name taken
+				} else {
+					add("undrop"+tag, 1) // refused: nothing to undrop
+				}
+			} else {
+				add("create"+tag, 6)
+				add("drop"+tag, 1) // refused
+				if inHolding {
+					add("undrop"+tag, 10)
+				} else {
+					add("undrop"+tag, 1)
+				}
+			}
 		}
 		if len(c.dropped) > 0 {
-			add("undrop", 5)
-			add("restart", 1)
-			add("purge", 1)
+			add("restart:0", 3)
+			add("purge:0", 2)
 		} else {
-			add("undrop", 1)
+			add("restart:0", 1)
+			add("purge:0", 1)
 		}
-		add("restart", 1)
-		op := rapid.SampledFrom(menu).Draw(rt, label+".op")
-		lower := rapid.SampledFrom(logical).Draw(rt, label+".name")
+		if skeleton {
+			tag := ":0"
+			switch stage[logical[0]] {
+			case 0, 3:
+				if c.live[logical[0]] != nil {
+					add("drop"+tag, 30)
+				} else {
+					add("create"+tag, 30)
+				}
+			case 1:
+				add("create"+tag, 30)
+			case 2, 4:
+				add("undrop"+tag, 30)
+			}
+		}
+		choice := rapid.SampledFrom(menu).Draw(rt, label+".op")
+		op := choice[:strings.Index(choice, ":")]
+		var li int
+		fmt.Sscan(choice[strings.Index(choice, ":")+1:], &li)
+		lower := logical[li]
 		switch op {
 		case "create":
 			create(label, lower)
@@ -374,6 +419,12 @@ func c47Run(rt *rapid.T, env *c47Env, rec *vh.Recorder) {
 			}
 			c.dropped[l.exact] = before
 			c.dirtyAt[l.exact] = l.dirty
+			switch {
+			case stage[lower] == 0 && l.dirty:
+				stage[lower] = 1
+			case stage[lower] == 3:
+				stage[lower] = 4
+			}
 			delete(c.live, lower)
 			delete(c.liveFP, lower)
 			classes["drop"] = true
@@ -400,6 +451,9 @@ func c47Run(rt *rapid.T, env *c47Env, rec *vh.Recorder) {
 				}
 				classes["undrop_refused_name_taken"] = true
 				undropRefused = true
+				if stage[lower] == 2 {
+					stage[lower] = 3
+				}
 				c.liveUnchanged("refused " + c.log[len(c.log)-1])
 			default:
 				if err != nil {
@@ -439,6 +493,13 @@ func c47Run(rt *rapid.T, env *c47Env, rec *vh.Recorder) {
 				delete(c.dropped, restored)
 				delete(c.dirtyAt, restored)
 				classes["undrop"] = true
+				switch stage[lower] {
+				case 4:
+					stage[lower] = 5
+				case 5:
+				default:
+					stage[lower] = 0
+				}
 			}
 		case "purge":
 			if err := c.admin("CALL dolt_purge_dropped_databases()"); err != nil {
@@ -450,6 +511,11 @@ func c47Run(rt *rapid.T, env *c47Env, rec *vh.Recorder) {
 			c.dropped = map[string][]string{}
 			c.dirtyAt = map[string]bool{}
 			c.backups = map[string]int{}
+			for k, v := range stage {
+				if v < 5 {
+					stage[k] = 0
+				}
+			}
 			c.liveUnchanged("purge")
 		case "restart":
 			c.log = append(c.log, "<server restart>")
@@ -467,5 +533,15 @@ func c47Run(rt *rapid.T, env *c47Env, rec *vh.Recorder) {
 		cls = append(cls, k)
 	}
 	sort.Strings(cls)
-	rec.Case(strings.Join(c.log, " ; "), undropDirty && undropRefused, cls...)
+	if undropDirty && undropRefused {
+		classes["undrop_dirty_and_undrop_refused"] = true
+		cls = append(cls, "undrop_dirty_and_undrop_refused")
+	}
+	nontrivial := false
+	for _, v := range stage {
+		if v == 5 {
+			nontrivial = true
+		}
+	}
+	rec.Case(strings.Join(c.log, " ; "), nontrivial, cls...)
 }
